@@ -194,12 +194,21 @@ void CDNS::CdnsDecoder::skip_item()
     switch (cbor_type) {
         case CborType::UNSIGNED:
         case CborType::NEGATIVE:
+            if (item_length >= 28) {
+                throw CdnsDecoderException(("Unsupported CBOR additional information value: " +
+                                            std::to_string(item_length)).c_str());
+            }
+            read_int(item_length);
+            break;
+
         case CborType::TAG:
             if (item_length >= 28) {
                 throw CdnsDecoderException(("Unsupported CBOR additional information value: " +
                                             std::to_string(item_length)).c_str());
             }
             read_int(item_length);
+            // Tag is one data item together with its content
+            skip_item();
             break;
 
         case CborType::SIMPLE:
